@@ -9,9 +9,19 @@
   (known finding F11).
 -/
 import PyndlProofs.Text
+import PyndlModel.Generated
 
 namespace Pyndl.C07
 open Pyndl Pyndl.Text
+
+/-- the header lines the writer model emits are the literals of io.py: the
+    legacy column names of `compatible=True` (`Generated.lean` is regenerated
+    from /repo on every run) and the separators shared with the reader -/
+theorem literals_match_source :
+    renderHeader true = Generated.legacyHeader.toList ∧
+    Generated.writerColSep = "\t" ∧ Generated.writerTokSep = "_" ∧
+    Generated.readerColSep = Generated.writerColSep ∧ Generated.readerTokSep = Generated.writerTokSep := by
+  decide +kernel
 
 /-- a token the property quantifies over: non-empty, no TAB, LF, CR, underscore. -/
 def WfTok (t : Str) : Prop := t ≠ [] ∧ TAB ∉ t ∧ LF ∉ t ∧ CR ∉ t ∧ US ∉ t
